@@ -15,13 +15,13 @@ func TestMain(m *testing.M) { hx.Main(m, "C20") }
 
 // RunCase executes one case under the hang watchdog.
 func RunCase(c *Case) outcome {
-	if c.N < 1 || c.N > 1<<16 {
+	if c.N < 1 || c.N > 1<<18 {
 		return outcome{err: fmt.Errorf("harness: capacity %d out of range", c.N)}
 	}
 	switch c.Kind {
-	case "seq", "sweep":
+	case "seq", "sweep", "long":
 		return guarded(1, func(ws []worker) error { return runSeq(c, ws[0]) })
-	case "conc":
+	case "conc", "stall":
 		n := c.Repeat
 		if n < 1 {
 			n = 1
@@ -75,6 +75,9 @@ func flushStats() {
 	hx.Extra("seq_settling_requests", statSettles.Load())
 	hx.Extra("max_settle_rounds", statSettleRounds.Load())
 	hx.Extra("conc_filter_calls_while_producing", statConcFilters.Load())
+	hx.Extra("long_log_calls", statLongLogs.Load())
+	hx.Extra("stall_filter_calls_while_producing", statStallFilters.Load())
+	hx.Extra("stall_log_calls_blocked_1ms_or_more", statStallLogs.Load())
 }
 
 // ---------------------------------------------------------------------------
@@ -96,6 +99,9 @@ func replayEnv(t *testing.T, e *hx.Envelope, replay bool) {
 	if c.Kind == "conc" && c.Repeat < 200 {
 		// the configuration does not fix the schedule: run it many times
 		c.Repeat = 200
+	}
+	if c.Kind == "stall" && replay && c.Repeat < 10 {
+		c.Repeat = 10
 	}
 	hx.Eval()
 	hx.Journal(e.Test, &c)
